@@ -8,7 +8,7 @@ RULE = ("random request histories on tree-git and bare-git collections; after ev
         "refused / no-op / read requests or for untouched collections, `git ls-tree HEAD` = served members with blob id = sha1('blob n\\0'+served bytes), `git status "
         "--porcelain` clean for tree stores (nested collection directories excepted), `git fsck --strict` clean; distinct = distinct (backend, head commit) states")
 WEIGHTS = {"put_same": 6, "put_reser": 4, "put_change": 8, "put_revert": 4, "put_new": 9, "delete": 6, "proppatch": 3, "restart": 0.5, "put_invalid": 3, "read": 4,
-           "put_cond": 3, "delete_missing": 2, "put_uidconflict": 2, "locked_writes": 2.5, "put_reserved": 2.0, "control_dir": 1.5, "delete_col": 2.5, "mkcol_new": 2.5}
+           "put_cond": 3, "delete_missing": 2, "put_uidconflict": 2, "locked_writes": 2.5, "put_reserved": 2.0, "control_dir": 3.0, "delete_col": 2.5, "mkcol_new": 2.5}
 MON = [monitors.C09Monitor]
 
 
@@ -24,7 +24,8 @@ def check(tier, seed, t0):
     guards = [("repository audits", c.get("repo_audits", 0), 1000 * k), ("tree == served comparisons", c.get("tree_comparisons", 0), 800 * k),
               ("changing writes counted", c.get("changing_writes", 0), 200 * k), ("non-changing requests counted", c.get("nonchanging_requests", 0), 100 * k),
               ("untouched intervals", c.get("untouched_intervals", 0), 300 * k), ("git status checks", c.get("status_checks", 0), 400 * k),
-              ("fsck runs", c.get("fsck_runs", 0), 150 * k), ("restarts", c.get("restarts", 0), 2)]
+              ("fsck runs", c.get("fsck_runs", 0), 150 * k), ("restarts", c.get("restarts", 0), 2),
+              ("requests below a store's control directory", c.get("op:control_dir", 0), 10 * k), ("collections made inside a bare repository's own directories", c.get("op:control_dir_bare_nested", 0), 1 * k)]
     return common.finish(PROP, tier, seed, "exploration", merged, failures, RULE, t0, guards=guards,
                          assumptions=["git 2.39 CLI is the independent reader of the repositories", "untracked nested collection directories are part of the default layout, not a dirty tree"])
 
